@@ -44,6 +44,10 @@ def cargo_env(target_dir, h=None):
     env.pop("VERIF_MAP_CAP", None)
     if h and h.get("map_cap"):
         env["VERIF_MAP_CAP"] = str(h["map_cap"])
+    env.pop("VERIF_GOLDEN_N", None)
+    if h:
+        for k, v in (h.get("env") or {}).items():
+            env[k] = str(v)
     env["CARGO_NET_OFFLINE"] = "true"
     env["CARGO_TARGET_DIR"] = target_dir
     env.pop("RUSTFLAGS", None)
@@ -78,6 +82,7 @@ def run_harness(scratch, h, log_dir, timeout_s, extra_args=(), tag=""):
     cmd += list(extra_args)
     log = os.path.join(log_dir, h["name"] + tag + ".log")
     t0 = time.time()
+    open(log, "w").close()
     if h.get("recursion"):
         # Per-function recursion bounds (CBMC --unwindset on the function identifiers). The identifiers are
         # read from the goto binary of a codegen-only pre-pass; the recursion unwinding assertions stay on,
@@ -126,7 +131,7 @@ def run_harness(scratch, h, log_dir, timeout_s, extra_args=(), tag=""):
 def recursion_unwindset(scratch, cmd, tdir, limits, log, h=None):
     """limits: {substring of the pretty function name: bound}. Returns the --unwindset argument."""
     pre = [c for c in cmd if c not in ("--no-unwinding-checks",)] + ["--only-codegen"]
-    with open(log, "w") as lf:
+    with open(log, "a") as lf:
         r = subprocess.run(pre, cwd=scratch, stdout=lf, stderr=subprocess.STDOUT, env=cargo_env(tdir, h),
                            preexec_fn=_limits, timeout=900)
     if r.returncode != 0:
